@@ -124,7 +124,8 @@ Merge(st, view) ==
                         !.cerr = [t \in Topics |-> IF t \in view.topics THEN view.err[t] ELSE @[t]],
                         !.cleader = [tp \in TPs |-> IF tp[1] \in view.topics
                                                     THEN (IF view.err[tp[1]] = 0 THEN view.leader[tp] ELSE -1) ELSE @[tp]]]
-    IN \* closing a pruned client fails its pending requests and asks for its connection to be closed
+    IN \* closing a pruned client fails its pending requests, newest first (close() pops them from the end), and asks for
+       \* its connection to be closed
        LET RECURSIVE CloseAll(_, _)
            CloseAll(stx, bs) ==
               IF bs = {} THEN stx
@@ -135,7 +136,7 @@ Merge(st, view) ==
                                            !.conn[b] = FALSE, !.inbox[b] = <<>>,
                                            !.reqs = [i \in DOMAIN @ |-> IF i \in SeqToSet(pend) THEN [@[i] EXCEPT !.live = FALSE] ELSE @[i]]]
                        o2 == [stx.out EXCEPT !.lost = IF stx.s.conn[b] THEN @ \cup {b} ELSE @]
-                   IN CloseAll(St(s2, o2, stx.sig \o [i \in DOMAIN pend |-> [k |-> "done", r |-> pend[i], ok |-> FALSE, why |-> "closed"]]),
+                   IN CloseAll(St(s2, o2, stx.sig \o [i \in DOMAIN pend |-> [k |-> "done", r |-> pend[Len(pend) + 1 - i], ok |-> FALSE, why |-> "closed"]]),
                                bs \ {b})
        IN CloseAll(St(s1, st.out, st.sig), prune)
 
